@@ -3,4 +3,4 @@ import importlib.util, os
 sp = importlib.util.spec_from_file_location('c12', os.path.join(os.path.dirname(os.path.abspath(__file__)), 'C12.py')); c12 = importlib.util.module_from_spec(sp); sp.loader.exec_module(c12)
 META = {}
 def queries(tier):
-    return [Query(e, 'C12_probe.cpp', e, {}, bounds=c12.B, default_unwind=6, default_rec=3, timeout=100, mem_gb=8, leak=True, stubs={c12.STN: 'stub_strtonum'}) for e in ('h_p1', 'h_p2')]
+    return [Query(e, 'C12_probe.cpp', e, {'VAR': int(os.environ.get('VAR', '0'))}, bounds=c12.B, default_unwind=6, default_rec=3, timeout=100, mem_gb=8, leak=True, stubs={c12.STN: 'stub_strtonum'}) for e in ('h_p1', 'h_p2', 'h_p3')]
